@@ -396,6 +396,12 @@ class LogOps(RealOps):
         r = self._cmp(x, y, lambda a, b: a == b, lambda a, b: RealOps.eq(self, a, b))
         return RealOps.eq(self, x, y) if r is None else r
 
+    def gt(self, x, y):
+        return self.lt(y, x)
+
+    def ge(self, x, y):
+        return self.le(y, x)
+
     def ite(self, c, t, f):
         if isconc(c):
             return t if c else f
